@@ -38,8 +38,38 @@
     (unless (same got want) (set bad [:drain got want])))
   bad)
 
+# hand-off mode: k takers are already waiting; fresh heap values are handed to them directly, and a collection (plus
+# same-sized garbage) runs before the takers get to run - the value then lives in the run queue only. Many rounds, so
+# that the run-queue ring is used at every offset.
+(defn run-handoff [rounds]
+  (def c (ev/chan 0))
+  (var bad nil)
+  (var seq 0)
+  (for r 0 rounds
+    (def k (+ 1 (% r 3)))
+    (def got @[])
+    (repeat k (ev/go (fn [] (array/push got (ev/take c)))))
+    (ev/sleep 0)
+    (def want @[])
+    (repeat k
+      (++ seq)
+      (array/push want (string "handoff-" seq "-" (string/repeat "h" 20)))
+      (ev/give c (case (% seq 3)
+                   0 (buffer "handoff-" seq "-" (string/repeat "h" 20))
+                   1 (tuple :payload (string "handoff-" seq "-" (string/repeat "h" 20)))
+                   @[(string "handoff-" seq "-" (string/repeat "h" 20))])))
+    (gccollect)
+    (repeat 6 (buffer "trash-" 12345 "-" (string/repeat "q" 20)) (tuple :payload (string "x" r)) @[(string "y" r)])
+    (ev/sleep 0)
+    (def seen (map (fn [v] (cond (buffer? v) (string v) (tuple? v) (get v 1) (array? v) (get v 0) v)) got))
+    (unless (deep= (sorted seen) (sorted want))
+      (when (nil? bad) (set bad [r k seen want]))))
+  bad)
+
 (batch-run
   (fn [item]
+    (when (item :handoff)
+      (break (canon [(item :handoff) (run-handoff (item :handoff))])))
     (def cap (item :cap))
     (def prefix (item :prefix))
     (def n (item :len))
